@@ -44,9 +44,14 @@ ShiftLaw ==
 
 TotalLaw == IF C.outcome \in {"model", "BareScriptParserError"} THEN <<"ACCEPT">> ELSE <<"REJECT", "escaped", C.outcome>>
 
-\* blanks outside quotes and brackets collapse to one blank, disappear next to "(", ")" and ","; ends are stripped
+\* blanks outside quotes and brackets collapse to one blank, disappear next to "(", ")" and "," and before the ":" that ends a
+\* line; ends are stripped
 RECURSIVE NextNonBlank(_, _)
 NextNonBlank(s, i) == IF i > Len(s) THEN 0 ELSE IF IsBlank(s[i]) THEN NextNonBlank(s, i + 1) ELSE s[i]
+RECURSIVE NextNonBlankAt(_, _)
+NextNonBlankAt(s, i) == IF i > Len(s) THEN 0 ELSE IF IsBlank(s[i]) THEN NextNonBlankAt(s, i + 1) ELSE i
+\* the next non-blank character is a ":" and nothing but blanks follows it (block headers, labels)
+ColonEndsLine(s, i) == LET j == NextNonBlankAt(s, i) IN j > 0 /\ s[j] = 58 /\ NextNonBlankAt(s, j + 1) = 0
 RECURSIVE NormFrom(_, _, _, _)
 NormFrom(s, i, q, acc) ==      \* q = 0 outside, otherwise the closing delimiter we are waiting for
     IF i > Len(s) THEN acc
@@ -59,7 +64,8 @@ NormFrom(s, i, q, acc) ==      \* q = 0 outside, otherwise the closing delimiter
          ELSE IF IsBlank(c) THEN
             LET prev == IF acc = <<>> THEN 0 ELSE acc[Len(acc)]
                 nxt == NextNonBlank(s, i) IN
-            IF prev \in {0, 32, 40, 44} \/ nxt \in {0, 41, 44} THEN NormFrom(s, i + 1, 0, acc) ELSE NormFrom(s, i + 1, 0, Append(acc, 32))
+            IF prev \in {0, 32, 40, 44} \/ nxt \in {0, 41, 44} \/ ColonEndsLine(s, i) THEN NormFrom(s, i + 1, 0, acc)
+            ELSE NormFrom(s, i + 1, 0, Append(acc, 32))
          ELSE NormFrom(s, i + 1, 0, Append(acc, c))
 Norm(s) == RStripL(LStripL(NormFrom(s, 1, 0, <<>>)))
 NormLines(r) == [i \in 1..Len(r.lines) |-> Norm(r.lines[i].text)]
